@@ -77,8 +77,11 @@ LibraryRpcs == {"GetBook", "CreateBook", "UpdateBook", "DeleteBook", "ListBooks"
    \cup (IF Has("f_map") /\ Has("s_flatten") THEN {"LabelBook"} ELSE {})
    \* a second target file: one RPC takes a (flattened) parameter named like that file's module, another returns one of its types
    \cup (IF Has("f_crossfile") THEN {"StampBook", "GetAuthor"} ELSE {})
+   \* ... and an LRO whose response type lives in that module, with a primitive flattened argument named like the module
+   \cup (IF Has("f_crossfile") /\ Has("m_lro") THEN {"ArchiveBook"} ELSE {})
 Paged == {"ListBooks"} \cup (IF Has("m_paged_map") THEN {"ListById"} ELSE {}) \cup (IF Has("m_paged_legacy") THEN {"ListOld"} ELSE {})
 Lro == (IF Has("m_lro") THEN {"ExportBooks"} ELSE {}) \cup (IF Has("m_lro_empty") THEN {"PurgeBooks"} ELSE {})
+       \cup (IF Has("f_crossfile") /\ Has("m_lro") THEN {"ArchiveBook"} ELSE {})
 ClientStreaming == (IF Has("m_cstream") THEN {"UploadBooks"} ELSE {}) \cup (IF Has("m_bidi") THEN {"ChatBooks"} ELSE {})
 Void == {"DeleteBook"}
 Mixins == IF Has("o_mixins")
@@ -108,7 +111,7 @@ SnakeOf == [ GetBook |-> "get_book", CreateBook |-> "create_book", UpdateBook |-
              ChatBooks |-> "chat_books", ExportBooks |-> "export_books", PurgeBooks |-> "purge_books", ListById |-> "list_by_id",
              ListOld |-> "list_old", Import |-> "import_", CreateChannel |-> "create_channel", RenameBook |-> "rename_book",
              CheckDep |-> "check_dep", StartRaw |-> "start_raw", LabelBook |-> "label_book",
-             StampBook |-> "stamp_book", GetAuthor |-> "get_author" ]
+             StampBook |-> "stamp_book", GetAuthor |-> "get_author", ArchiveBook |-> "archive_book" ]
 TestKinds == (IF HasT("grpc") THEN {"grpc"} ELSE {}) \cup (IF HasT("grpc") /\ HasAsync THEN {"grpc-async"} ELSE {})
              \cup (IF HasT("rest") THEN {"rest"} ELSE {})
 RequiredTests == { [rpc |-> SnakeOf[r], kind |-> k, pager |-> FALSE] : r \in LibraryRpcs, k \in TestKinds }
